@@ -8,7 +8,10 @@ Verdict classes (DESIGN section 4):
 import subprocess, os, re, time, resource, json
 
 CBMC_CHECKS = ["--bounds-check", "--pointer-check", "--div-by-zero-check", "--undefined-shift-check",
-               "--signed-overflow-check", "--conversion-check", "--pointer-overflow-check"]
+               "--signed-overflow-check", "--pointer-overflow-check"]
+# --conversion-check is deliberately not used: signed->unsigned conversion is modular by definition and out-of-range
+# unsigned->signed is implementation-defined (modular on every supported target), neither is UB; value correctness is
+# the business of the postconditions
 
 
 def _limits(mem_gb):
